@@ -462,7 +462,7 @@ bool TasgridWrapper::executeCommand(){
 
     if ((com.inside(makecoms) or command == command_getpoints) and not com.inside(quadcoms))
         outputPoints(output_points_mode::regular);
-    if (com.inside(std::array<TypeCommand, 4>{command_getneeded, command_refine, command_refine_aniso, command_refine_surp}))
+    if (com.inside(std::array<TypeCommand, 5>{command_getneeded, command_refine, command_refine_aniso, command_refine_surp, command_update}))
         outputPoints(output_points_mode::needed);
     if (command == command_makequadrature or command == command_getquadrature)
         outputQuadrature();
